@@ -620,7 +620,7 @@ pub fn inject(
         "isdst_not_boolean" => {
             let k = rng.usize(lay.typecnt);
             out[lay.ttinfo.0 + k * 6 + 4] = 2 + rng.below(254) as u8;
-            Some((out, Expect::Survive, format!("isdst of type {} not 0/1", k)))
+            Some((out, Expect::Reject, format!("isdst of type {} not 0/1", k)))
         }
         _ => None,
     }
@@ -967,6 +967,61 @@ pub fn shard(part: Part, seed: u64, tier: &str, from: u64, to: u64, out: &str) -
                     fb[at..at + 4].copy_from_slice(&0u32.to_be_bytes());
                     *sink.sh.fired.entry("zero_chars".into()).or_insert(0) += 1;
                     sink.eval(Input { mode: "tzif".into(), hex: String::new(), expect: Expect::Reject, expected_debug: None, what: format!("consistent v{} file with one type and charcnt = 0", version) }, &fb, &mut rng);
+                }
+                // B5. further files the same writer produces from a model that breaks one MUST of
+                // RFC 8536 (each is consistent as a byte layout, so only the semantic check can
+                // reject it)
+                {
+                    let nt = g.model.types.len();
+                    let mut variants: Vec<(&str, ZoneModel, tzif::TzifOpts, String)> = Vec::new();
+                    if nt >= 2 {
+                        let mut o2 = g.opts.clone();
+                        o2.isstd = vec![0; nt - 1];
+                        o2.isut = vec![];
+                        variants.push(("isstd_count_mismatch", g.model.clone(), o2, format!("isstdcnt = {} with typecnt = {}", nt - 1, nt)));
+                    }
+                    {
+                        let mut m2 = g.model.clone();
+                        let k = rng.usize(nt);
+                        m2.types[k].utoff = i32::MIN;
+                        if m2.rule.is_none() || m2.trans.last().map_or(true, |t| t.1 != k) {
+                            variants.push(("utoff_minimum", m2, g.opts.clone(), format!("utoff of type {} is -2^31", k)));
+                        }
+                    }
+                    {
+                        // leap-second tables that break the rules for the first record, the order
+                        // or the spacing, or the step of the correction
+                        let mut m2 = g.model.clone();
+                        let v1 = g.opts.version == 1;
+                        let base = rng.range(0, 300_000_000);
+                        let (leaps, why): (Vec<(i64, i32)>, &str) = match rng.below(5) {
+                            0 => (vec![(-1 - rng.range(0, 1_000_000), 1)], "first leap second before 1970"),
+                            1 => (vec![(base, 2)], "first correction is 2"),
+                            2 => (vec![(base, 1), (base + 40 * gen::DAY, 3)], "correction steps by 2"),
+                            3 => (vec![(base, 1), (base + 10 * gen::DAY, 2)], "leap seconds 10 days apart"),
+                            _ => (vec![(base + 40 * gen::DAY, 1), (base, 2)], "leap seconds not ascending"),
+                        };
+                        if !v1 || leaps.iter().all(|l| l.0 <= i32::MAX as i64 && l.0 >= i32::MIN as i64) {
+                            m2.leaps = leaps;
+                            variants.push(("leap_table_invalid", m2, g.opts.clone(), why.to_string()));
+                        }
+                    }
+                    if let (Some(r), Some(&(last_t, last_i))) = (&g.model.rule, g.model.trans.last()) {
+                        // the footer no longer matches the type in force from the last transition on
+                        let want = r.at(last_t).utoff;
+                        if let Some(k) = g.model.types.iter().position(|t| t.utoff != want) {
+                            let mut m2 = g.model.clone();
+                            let n = m2.trans.len();
+                            m2.trans[n - 1].1 = k;
+                            let _ = last_i;
+                            variants.push(("footer_inconsistent_with_last_transition", m2, g.opts.clone(), format!("last transition switched to type {} (offset differs from the footer rule's)", k)));
+                        }
+                    }
+                    for (kind, m2, o2, desc) in variants {
+                        let (fb, _) = tzif::write(&m2, &o2);
+                        *sink.sh.fired.entry(kind.to_string()).or_insert(0) += 1;
+                        sink.eval(Input { mode: "tzif".into(), hex: String::new(), expect: Expect::Reject, expected_debug: None, what: format!("{}; invalid by construction: {}", what, desc) }, &fb, &mut rng);
+                    }
                 }
                 for _ in 0..faults_per_file(tier) {
                     let kind = *rng.pick(&FAULT_KINDS);
